@@ -302,6 +302,24 @@ class Check(FormulaCheck):
                 else:
                     self.expect('C18/CHOOSE:index-outside-yields-a-value', self.is_err(g), index=i, values=vals, got=g)
             rec.sample({'formula': f})
+            # a value may itself be an array (a literal, a host list, a range): vi is that array, whole - and an index beyond the
+            # VALUES is an error however many items the arrays hold
+            from ..oracle import canon
+            arrs = [('{1,2,3}', [1, 2, 3]), ('{4;5}', [4, 5]), ('{1,2;3,4}', [[1, 2], [3, 4]]), ('v_arr', [7, 8, 9]), ('v_grid', [[1, 2], [3, 4]]), ('A1:B2', 'range'), ('{5}', [5]), ('v_one', [6])]
+            self.e.bind(v_arr=[7, 8, 9], v_grid=[[1, 2], [3, 4]], v_one=[6])
+            m = rnd.randint(1, 3)
+            picks = [rnd.choice(arrs) if rnd.random() < 0.7 else ('11', 11) for _ in range(m)]
+            for i in range(0, m + 3):
+                f = 'CHOOSE(%d,%s)' % (i, ','.join(t for t, _ in picks))
+                g = self.ev(f)
+                rec.nt(('choose-arrays', i, tuple(t for t, _ in picks)))
+                if 1 <= i <= m:
+                    want = picks[i - 1][1]
+                    if want == 'range':
+                        want = self.ev('A1:B2')
+                    self.expect('C18/CHOOSE:wrong-value:array-valued', canon(g) == canon(want), formula=f, got=g, expected=want)
+                else:
+                    self.expect('C18/CHOOSE:index-outside-yields-a-value:array-valued', self.is_err(g), formula=f, got=g)
         # the longest list the function takes (254 values): the last positions still address their own value
         vals = list(range(1000, 1254))
         for k, v in enumerate(vals):
